@@ -210,63 +210,62 @@ def performCheckMultipart (pp : PP) (l : ML) : PP × ML × Flow :=
     else ({ pp with state := .processValueToBoundary, valueOffset := 0 }, { l with stateChanged := true }, .again)
   | none => ({ pp with state := .processValueToBoundary, valueOffset := 0 }, { l with stateChanged := true }, .again)
 
+/-- `if (MHD_NO == find_boundary (…)) { if (pp->state == PP_Error) return MHD_NO; goto END; } break;` -/
+def flowFound (r : PP × Nat × Bool) (l : ML) : PP × ML × Flow :=
+  if r.2.2 then (r.1, { l with ioff := r.2.1 }, .again)
+  else if r.1.state = .error then (r.1, { l with ioff := r.2.1 }, .ret)
+  else (r.1, { l with ioff := r.2.1 }, .gotoEnd)
+
+/-- `if (MHD_NO == process_multipart_headers (…)) { if (PP_Error) return MHD_NO; else goto END; }
+    state_changed = 1; break;` -/
+def flowHeaders (r : PP × Nat × Bool) (l : ML) : PP × ML × Flow :=
+  if r.2.2 then (r.1, { l with ioff := r.2.1, stateChanged := true }, .again)
+  else if r.1.state = .error then (r.1, { l with ioff := r.2.1 }, .ret)
+  else (r.1, { l with ioff := r.2.1 }, .gotoEnd)
+
+/-- `if (MHD_NO == process_value_to_boundary (…)) { if (PP_Error) return MHD_NO; break; } break;` -/
+def flowValue (r : PP × Nat × Bool) (l : ML) : PP × ML × Flow :=
+  if ¬ r.2.2 ∧ r.1.state = .error then (r.1, { l with ioff := r.2.1 }, .ret)
+  else (r.1, { l with ioff := r.2.1 }, .again)
+
 /-- the main `switch (pp->state)` -/
 def mainSwitch (pp : PP) (l : ML) : PP × ML × Flow :=
   match pp.state with
   | .error => (pp, l, .ret)
   | .done => ({ pp with state := .error }, l, .ret)
   | .init =>
-    let (pp1, io, _) := findBoundary pp pp.boundary l.ioff .processEntryHeaders .done
-    (pp1, { l with ioff := io }, .again)
+    let r := findBoundary pp pp.boundary l.ioff .processEntryHeaders .done
+    (r.1, { l with ioff := r.2.1 }, .again)
   | .nextBoundary =>
     -- (fix F15a: the element after a nested multipart/mixed goes through the cleanup state)
-    let (pp1, io, found) := findBoundary pp pp.boundary l.ioff .performCleanup .done
-    if found then (pp1, { l with ioff := io }, .again)
-    else if pp1.state = .error then (pp1, { l with ioff := io }, .ret)
-    else (pp1, { l with ioff := io }, .gotoEnd)
+    flowFound (findBoundary pp pp.boundary l.ioff .performCleanup .done) l
   | .processEntryHeaders =>
-    let pp0 := { pp with mustIkvi := true }
-    let (pp1, io, ok) := processMultipartHeaders pp0 l.ioff .performCheckMultipart
-    if ok then (pp1, { l with ioff := io, stateChanged := true }, .again)
-    else if pp1.state = .error then (pp1, { l with ioff := io }, .ret)
-    else (pp1, { l with ioff := io }, .gotoEnd)
+    flowHeaders (processMultipartHeaders { pp with mustIkvi := true } l.ioff .performCheckMultipart) l
   | .performCheckMultipart => performCheckMultipart pp l
   | .processValueToBoundary =>
-    let (pp1, io, ok) := processValueToBoundary pp l.ioff pp.boundary .performCleanup .done
-    if ¬ ok ∧ pp1.state = .error then (pp1, { l with ioff := io }, .ret)
-    else (pp1, { l with ioff := io }, .again)
+    flowValue (processValueToBoundary pp l.ioff pp.boundary .performCleanup .done) l
   | .performCleanup =>
     let pp1 := freeUnmarked pp.clearHave
     ({ pp1 with nested := none, state := .processEntryHeaders }, { l with stateChanged := true }, .again)
   | .nestedInit =>
     match pp.nested with
     | none => ({ pp with state := .error }, l, .ret)
-    | some nb =>
-      let (pp1, io, found) := findBoundary pp nb l.ioff .nestedPerformMarking .nextBoundary
-      if found then (pp1, { l with ioff := io }, .again)
-      else if pp1.state = .error then (pp1, { l with ioff := io }, .ret)
-      else (pp1, { l with ioff := io }, .gotoEnd)
+    | some nb => flowFound (findBoundary pp nb l.ioff .nestedPerformMarking .nextBoundary) l
   | .nestedPerformMarking =>
     ({ pp with haveName := pp.cname.isSome, haveType := pp.ctype.isSome, haveFile := pp.cfile.isSome,
                haveEnc := pp.cenc.isSome, state := .nestedProcessEntryHeaders },
      { l with stateChanged := true }, .again)
   | .nestedProcessEntryHeaders =>
     -- (fix F15b: every nested element is reported at least once, like the top-level ones)
-    let pp0 := { pp with valueOffset := 0, mustIkvi := true }
-    let (pp1, io, ok) := processMultipartHeaders pp0 l.ioff .nestedProcessValueToBoundary
-    if ok then (pp1, { l with ioff := io, stateChanged := true }, .again)
-    else if pp1.state = .error then (pp1, { l with ioff := io }, .ret)
-    else (pp1, { l with ioff := io }, .gotoEnd)
+    flowHeaders (processMultipartHeaders { pp with valueOffset := 0, mustIkvi := true } l.ioff
+      .nestedProcessValueToBoundary) l
   | .nestedProcessValueToBoundary =>
     match pp.nested with
     | none => (pp.setFault "nested-boundary-null", l, .ret)
-    | some nb =>
-      let (pp1, io, ok) := processValueToBoundary pp l.ioff nb .nestedPerformCleanup .nextBoundary
-      if ¬ ok ∧ pp1.state = .error then (pp1, { l with ioff := io }, .ret)
-      else (pp1, { l with ioff := io }, .again)
+    | some nb => flowValue (processValueToBoundary pp l.ioff nb .nestedPerformCleanup .nextBoundary) l
   | .nestedPerformCleanup =>
     ({ freeUnmarked pp with state := .nestedProcessEntryHeaders }, { l with stateChanged := true }, .again)
-  | _ => (pp.setFault "panic-internal-error", l, .ret)
+  | _ => (pp.setFault "panic-internal-error", l, .ret)   -- MHD_PANIC
 
 /-- the `AGAIN:` block -/
 def again (pp : PP) (l : ML) : PP × ML :=
